@@ -386,7 +386,16 @@ var (
 	readsChecked                                                                       int64
 )
 
+var (
+	stMu       sync.Mutex
+	modelState = map[string]struct{}{}
+)
+
 func caseKey(space string, progs [][]probe.Op, exp blockExp) {
+	ps := exp.post.String()
+	stMu.Lock()
+	modelState[ps] = struct{}{}
+	stMu.Unlock()
 	var b strings.Builder
 	b.WriteString(space)
 	for _, t := range exp.txs {
@@ -809,9 +818,9 @@ func main() {
 	cov["phase_seconds"] = phase
 	cov["bounds"] = map[string]any{"A_max_len": L, "A_sub_len": 2, "A_sub_alphabet": subAlpha, "A_max_calls": maxCalls, "B_body_alphabet": bodyAlpha, "B_body_len": 2,
 		"B_bodies": len(bodies), "B3_body_alphabet": body3Alpha, "B3_bodies": len(bodies3), "A_ExecuteBlock_max_len": LReal, "block_sizes": "1,2,3", "prestates": len(prestates), "workers": nW}
-	cov["states"] = blocksRun           // distinct blocks executed (each from a committed pre-state)
-	cov["transitions"] = txsRun         // transactions executed by the real executeBlock
-	cov["traces_validated_against_impl"] = blocksRun
+	cov["states"] = len(modelState)                // distinct reference-model storage states reached
+	cov["transitions"] = blocksRun                 // blocks executed by the real code (pre-state -> post-state)
+	cov["traces_validated_against_impl"] = txsRun  // transactions whose real outcome was compared with the reference
 	cov["max_depth"] = 3
 	cov["reads_checked"] = readsChecked
 	cov["nested_crosshash_order"] = map[string]int64{"callee-first(prepend)": nestedOrderPrepend, "program-order": nestedOrderOther}
